@@ -15,26 +15,38 @@ CACHE_NOTE = ("Theorems are about the Lean store-level model (Model/Cache.lean: 
               "controlled schedules and compares, after every step, stale sets (3 fresh_time values), every store's content and modified time, the "
               "value of every write and every output with the Lean driver. Trusted: Lean kernel, translator, harness, the ValueStore contract "
               "(read returns what was written, each write gets a newer modified time), determinism of call functions (Herbrand values); that the "
-              "store events of one run are completed writes in ancestor-first order is C09/C01/C04's subject.")
+              "store events of one run are completed writes of the right values in ancestor-first order is no longer assumed: the END-TO-END theorems "
+              "derive it from the execution model (Model/Exec.lean = run_physical.py: user calls compute from the slots of their argument nodes, read "
+              "fills its slot from the store, write stores the slot of the value's own call) applied in the completion order of ANY schedule of the "
+              "engine model on the physical plan (Model/Phys.lean) built from the stale set the stale check computes; T2 `exec`: for every real run the "
+              "model must predict every value computed, read, stored and returned, given the order in which the effects really took place. The "
+              "execution model has no side-effecting producers (dependent sources must be up to date there) and applies a node's effect at its "
+              "completion (justified by C09_*_stable).")
 CLAIMED = {
  "C01": ("proof", "Lean 4 proof (inductive invariant over an executable engine model) + trace refinement check",
          "For every reachable state of the engine model a begun node has every (transitive) predecessor completed OK (C01_direct, C01_transitive, "
-         "C01_enqueued, C01_counter). Kernel-checked for all graphs/schedules; tied to the code by regenerated Gen + trace replay of the real engine.", "4/C01"),
+         "C01_enqueued, C01_counter); C01_plan: the same for the user's own dependency relation (argument, keyword, add_dependency edges, through "
+         "literal nodes) on the graph a registry-less run examines after ancestor pruning and contraction of trivial literals. Kernel-checked for all "
+         "graphs/schedules; tied to the code by regenerated Gen (engine skeleton, contraction rule) + trace replay of the real engine.", "4/C01"),
  "C02": ("proof", "Lean 4 proof (gather/eval by structural induction, argument round-trip over edge permutations, schedule independence) + program differential",
          "eval(gather v) = substitution with containers rebuilt by Python semantics; node-free subtrees keep their identity; opaque objects are not "
          "traversed; getArgumentNodes returns positional and keyword arguments in the order given for any edge order; unpack exactness; any admissible "
          "execution order gives every slot its eval value (C02_*).", "4/C02"),
- "C03": ("proof", "Lean 4 proof (perturbation lemma + invariant Good over all histories) + differential history replay",
+ "C03": ("proof", "Lean 4 proof (perturbation lemma + invariant Good over all histories; execution invariant over every reachable engine state) + differential history replay",
          "Good (every stored value the next run treats as up to date equals its from-scratch value) is preserved by every completed write, source update "
          "and deletion in any order (C03_good_preserved); a complete run then leaves every stored value and every node's visible value equal to from-scratch "
-         "(C03_history, C03_write_value, C03_good_init).", "4/C03"),
+         "(C03_history, C03_write_value, C03_good_init). C03_end_to_end: for every schedule of the engine model on the physical plan of the stale set "
+         "the stale check computes, a run that returns normally leaves the from-scratch value in every non-source store and in the returned node.", "4/C03"),
  "C04": ("proof", "Lean 4 proof (place-counting invariant) + trace refinement check",
          "No node is begun or enqueued twice in any reachable state, every enqueued node is in exactly one place, only graph nodes run "
          "(C04_once, C04_enqueued_once, C04_place, C04_only_graph_nodes).", "4/C04"),
- "C05": ("proof", "Lean 4 proof (stale check = declarative out-of-date relation; idempotence of a complete run) + differential history replay",
+ "C05": ("proof", "Lean 4 proof (stale check = declarative out-of-date relation; idempotence of a complete run; stale check and run on the engine model) + differential history replay",
          "isStale (the model of _get_stale_nodes over the regenerated comparison) holds exactly for the nodes that are out of date in the declarative sense "
          "(C05_stale_spec), is inherited downstream, is monotone in fresh_time, and is empty after a complete run (C05_idempotent). The harness checks on the "
-         "real code that the rewritten stores are exactly the declaratively out-of-date ones and that a repeated run does nothing.", "4/C05"),
+         "real code that the rewritten stores are exactly the declaratively out-of-date ones and that a repeated run does nothing (in-memory and bundled "
+         "file stores). C05_stale_check_any_schedule/_result: every engine schedule of the stale check computes isStale and asks each store at most once. "
+         "C05_end_to_end(_only_stale): under every schedule exactly the out-of-date stored values are written, up-to-date ones are never recomputed, and "
+         "nothing is out of date afterwards.", "4/C05"),
  "C06": ("proof", "Lean 4 proof (inductive invariants) + trace refinement check",
          "Nothing reachable from a failed node is ever begun; first_node_error is exactly the first recorded failure and is set iff a call failed "
          "(C06_contain, C06_error, C06_error_real, C06_raises_iff, C06_failed_not_ok).", "4/C06"),
@@ -43,10 +55,11 @@ CLAIMED = {
          "worker_count threads, all exited, nothing running, nothing enabled afterwards; a cycle makes the Kahn model raise and a completed sort is a "
          "topological order of all nodes (C07_terminates, C07_no_deadlock, C07_can_finish, C07_quiescent, C07_nothing_later, C07_cycle_rejected, "
          "C07_kahn_sound, C07_acyclic_first, C07_skeleton). The cooperative scheduler's deadlock detector runs on every controlled schedule.", "4/C07"),
- "C08": ("proof", "Lean 4 proof (Good preserved by every prefix of every history, no ordering assumption) + cut injection at random events",
+ "C08": ("proof", "Lean 4 proof (Good preserved by every prefix of every history, no ordering assumption; Good in every reachable state of the run) + cut injection at random events",
          "Whatever subset of writes completed before a cut, in whatever order, Good holds (C08_cut, C08_every_prefix, C08_fault); the next complete run is "
-         "correct (C08_next_run_correct); completed writes whose upstream was settled are not out of date afterwards (C08_no_redo). Process death for file "
-         "stores is delegated to C11.", "4/C08"),
+         "correct (C08_next_run_correct); completed writes whose upstream was settled are not out of date afterwards (C08_no_redo). C08_end_to_end_cut / "
+         "_fault: Good holds in EVERY reachable state of every engine schedule of the physical plan, also when store writes raise after taking effect. "
+         "Process death for file stores is delegated to C11.", "4/C08"),
  "C18": ("proof", "Lean 4 proof (conversion to instants is order-isomorphic for every lawful zone; decision = decision on instants) + per-TZ child-process differential",
          "For every zone satisfying the PEP 495 law and every naive/aware representation, the converted values compare exactly as the instants they denote "
          "(C18_order), so the regenerated stale condition and the whole stale fold decide as on bare instants (C18_decision, C18_fold_decision, "
@@ -76,7 +89,8 @@ CLAIMED = {
          "For a rebuilt stored value: orig -> write -> read -> argument consumers, plain dependents after the write, arguments always from read nodes, "
          "registered output redirected to its read node (C09_edges, C09_args_from_read, C09_output); pruning preserves these paths; hence in every "
          "reachable engine state a begun consumer implies completed read/write/orig (C09_order, C09_path_order); dependent sources are read after their "
-         "predecessors (C09_depsource*); stored descendants are out of date too (C09_downstream_stale); the physical plan is acyclic.", "4/C09"),
+         "predecessors (C09_depsource*); stored descendants are out of date too (C09_downstream_stale); the physical plan is acyclic; what a begun node "
+         "reads (store, argument slots, the value to write) is already final (C09_read_stable, C09_args_stable, C09_write_input_stable).", "4/C09"),
  "C13": ("proof", "Lean 4 proof (frame theorem on an explicit heap model, all writes go to objects allocated after copy) + structural snapshots and write tracing",
          "Every object reachable from the caller's plan and registry is unchanged after run/dry_run/render for every outcome (C13_frame, "
          "C13_frame_snapshot), every write targets a fresh object (C13_writes_fresh), copies are independent both ways, two interleaved runs of one "
